@@ -59,7 +59,7 @@ def main():
                 p = subprocess.run([os.path.join(VERIF, "bin", "check"), pid, "--tier", "quick"], env=env,
                                    capture_output=True, text=True, timeout=1200)
                 sigs = [ln.split("::")[0].replace("violation rule/signature:", "").strip()
-                        for ln in p.stdout.splitlines() if ln.startswith("violation rule/signature")]
+                        for ln in p.stdout.splitlines() if "violation rule/signature:" in ln.split("::")[0]]
                 verdicts.append(f"{pid}:{'KILLED' if p.returncode == 1 else 'SURVIVED' if p.returncode == 0 else 'HARNESS'}"
                                 f"[{'; '.join(sigs)[:160]}]")
             expect = m.get("expect", "kill")
